@@ -53,7 +53,7 @@ class Bottom(Exception):
 
 
 class State:
-    __slots__ = ('env', 'itv', 'le', 'vals', 'pc', 'pcv')
+    __slots__ = ('env', 'itv', 'le', 'vals', 'pc', 'pcv', 'guard')
 
     def __init__(self, env=None, itv=None, le=None, vals=None, pc=None):
         self.pc = pc            # discriminant of the last branch taken on every path into this point
@@ -62,14 +62,18 @@ class State:
         self.itv = itv if itv is not None else {}
         self.le = le if le is not None else set()
         self.vals = vals if vals is not None else {}     # vn -> frozenset of the values it can have (small sets)
+        # facts that hold whenever a boolean phi has a given value: (phi vn, 0|1) -> frozenset of `le` facts
+        # (the side of a join on which the phi had that constant: e.g. `Ok` of a validation helper)
+        self.guard = {}
 
     def copy(self):
         s = State(dict(self.env), dict(self.itv), set(self.le), dict(self.vals), self.pc)
         s.pcv = self.pcv
+        s.guard = dict(self.guard)
         return s
 
     def same(self, o):
-        return self.env == o.env and self.itv == o.itv and self.le == o.le and self.vals == o.vals
+        return self.env == o.env and self.itv == o.itv and self.le == o.le and self.vals == o.vals and self.guard == o.guard
 
 
 def mentions(vn, pred, _d=0):
@@ -597,6 +601,9 @@ class AbsInt:
         if d > 30:
             return
         h = vn[0]
+        g = st.guard.get((vn, 1 if truth else 0)) if st.guard else None
+        if g:
+            st.le |= g
         if h == 'c':
             if bool(vn[1]) != truth:
                 raise Bottom()
@@ -1120,6 +1127,11 @@ class AbsInt:
             u = old.vals[v] | new.vals[v]
             if len(u) <= 8:
                 res.vals[v] = u
+        for gk in old.guard.keys() & new.guard.keys():
+            if gk not in res.guard:
+                g = old.guard[gk] & new.guard[gk]
+                if g:
+                    res.guard[gk] = g
         # keep order facts that hold on the other side by proof
         for (src, oth) in ((old, new), (new, old)):
             for fct in src.le - oth.le:
@@ -1202,7 +1214,31 @@ class AbsInt:
             return 'bool'
         return None
 
+    def join_guards(self, res, old, new, P, a, c):
+        """boolean phi of constants: remember what each side knew"""
+        def const01(v):
+            return v[1] if v[0] == 'c' and v[1] in (0, 1) else None
+        ka, kc = const01(a), const01(c)
+        keep = lambda fs: frozenset(x for x in fs if not mentions(x[1], lambda v: v == P) and not mentions(x[2], lambda v: v == P)) if fs else frozenset()
+        if ka is not None and kc is not None and ka != kc:
+            res.guard[(P, ka)] = keep(frozenset(list(old.le - new.le)[:80]))
+            res.guard[(P, kc)] = keep(frozenset(list(new.le - old.le)[:80]))
+        elif a == P and kc is not None:
+            other = 1 - kc
+            if (P, other) in old.guard:
+                res.guard[(P, other)] = old.guard[(P, other)]
+            if (P, kc) in old.guard:
+                res.guard[(P, kc)] = frozenset(x for x in old.guard[(P, kc)] if x in new.le)
+        elif c == P and ka is not None:
+            other = 1 - ka
+            if (P, other) in new.guard:
+                res.guard[(P, other)] = new.guard[(P, other)]
+            if (P, ka) in new.guard:
+                res.guard[(P, ka)] = frozenset(x for x in new.guard[(P, ka)] if x in old.le)
+
     def join_phi(self, res, old, new, P, a, c, widen):
+        if P[2] == 'bool' if len(P) > 2 else False:
+            self.join_guards(res, old, new, P, a, c)
         ia = self.itvof(old, a, 0)
         ic = self.itvof(new, c, 0)
         va, vc = self.valsof(old, a), self.valsof(new, c)
